@@ -158,7 +158,7 @@ impl Property for C11P {
         "C11"
     }
     fn rule(&self) -> String {
-        "Scenarios = build profile {the harness's optimised build; the unoptimised dev profile of /verif/nestchild, where frames are larger and tail calls stay calls — present when bin/check built it} x nesting shape {'- ', '? ', '[', '{a: ', alternating block, alternating flow, block then flow, 'k:' per level \
+        "Scenarios = build profile {the harness's optimised build; the unoptimised dev profile of /verif/nestchild, where frames are larger and tail calls stay calls — present when bin/check built it} x nesting shape {'- ', '? ', '[', '{a: ', alternating block, alternating flow, block then flow, 'k:' per level, '- ' per level around a literal block scalar whose spaces-only lines straddle the 16-character window \
          (depth capped at 5*10^3 quick / 2*10^4 thorough because the input is quadratic; nested collection keys through the loaders capped at 10^4 (3*10^3 unoptimised) because hashing nested keys is quadratic), random opener mixes} x API {pull iterator, \
          Parser::load with a counting receiver, load_from_str + forget, load_from_str + drop, MarkedYamlOwned load + drop, iteratively \
          built tree + drop, iteratively built tree + YamlEmitter::dump with default settings and with multiline_strings(true); the '? ' shape is built nested in key position (capped at 3*10^3: building it hashes every level)} x depth {1, 10, 10^2, 10^3, 10^4, 3*10^4, 10^5 (+3*10^3, 3*10^5 thorough)} \
